@@ -147,17 +147,27 @@ theorem sim_step {s s' : State} {e : Event} (h : step repaired s e = some s') :
   | pop i t =>
     simp only [step] at h
     split at h <;> try (simp at h)
-    rename_i b t' rest hi hq
-    obtain ⟨rfl, rfl⟩ := h
-    have := mv_abs { s with queue := rest } (.run t) hi
-    cases b <;> simpa [cstep, absEvent, PC.cls, abs, hq, hi, State.goto] using this
+    rename_i hi
+    rename_i b
+    obtain ⟨hmem, rfl⟩ := h
+    have hpos : 0 < s.queue.length := List.length_pos_of_mem hmem
+    have := mv_abs { s with queue := s.queue.erase t } (.run t) hi
+    cases b <;> simpa [cstep, absEvent, PC.cls, abs, hi, State.goto, hpos, List.length_erase_of_mem hmem] using this
   | popNone i =>
     simp only [step] at h
     split at h <;> try (simp at h)
     rename_i ok hi hq
     subst h
-    have := mv_abs s (if ok then .noTask else .exiting) hi
+    have := mv_abs s (if ok then .noTask else .drained) hi
     cases ok <;> simpa [cstep, absEvent, PC.cls, abs, hq, hi] using this
+  | drainExit i =>
+    simp only [step] at h
+    split at h <;> try (simp at h)
+    rename_i hi
+    subst h
+    have := mv_abs s (if s.kill == -1 then .exiting else .noTask) hi
+    by_cases hk : s.kill = -1 <;> simp [hk, PC.cls] at this <;>
+      simpa [cstep, absEvent, PC.cls, abs, hk] using this
   | finish i =>
     simp only [step] at h
     split at h <;> try (simp at h)
